@@ -508,7 +508,12 @@ func (env *Env) evalIndex(x *EIndex) Val {
 	case *types.Slice:
 		i := env.eval(x.I, types.Typ[types.Int])
 		i = env.coerceIdx(i)
-		return vc.readElem(env.st, u.Elem(), base.C[0], vc.iadd(base.C[1], i.C[0]))
+		if env.arithOverQVar(x.I) {
+			// an index like s[k+i] with i quantified: (gidx off (+ k i)) would only add a useless pattern candidate;
+			// keep the plain sum (such quantifiers are left to the solver's model-based instantiation as before)
+			return vc.readElem(env.st, u.Elem(), base.C[0], vc.iadd(base.C[1], i.C[0]))
+		}
+		return vc.readElem(env.st, u.Elem(), base.C[0], vc.eidx(base.C[1], i.C[0]))
 	case *types.Array:
 		i := env.coerceIdx(env.eval(x.I, types.Typ[types.Int]))
 		addr := base.Addr
@@ -665,6 +670,36 @@ func (env *Env) evalBin(x *EBin, hint types.Type) Val {
 	}
 	t, rt := vc.binop(op, a.C[0], b.C[0], a.T, b.T, true)
 	return Val{T: rt, C: []string{t}}
+}
+
+// arithOverQVar: e is an arithmetic expression (+ - * / %) that directly involves a quantified variable.
+func (env *Env) arithOverQVar(e Expr) bool {
+	b, ok := e.(*EBin)
+	if !ok {
+		return false
+	}
+	switch b.Op {
+	case "+", "-", "*", "/", "%":
+	default:
+		return false
+	}
+	var mentions func(e Expr) bool
+	mentions = func(e Expr) bool {
+		switch x := e.(type) {
+		case *EIdent:
+			v, ok := env.vars[x.Name]
+			return ok && len(v.C) == 1 && strings.HasPrefix(v.C[0], "q_")
+		case *EBin:
+			switch x.Op {
+			case "+", "-", "*", "/", "%":
+				return mentions(x.X) || mentions(x.Y)
+			}
+		case *EUn:
+			return mentions(x.X)
+		}
+		return false
+	}
+	return mentions(b)
 }
 
 func isNilLit(e Expr) bool {
@@ -840,6 +875,38 @@ func (env *Env) evalCall(x *ECall, hint types.Type) Val {
 				return Val{T: &ArrT{types.Typ[types.Int], u.Elem()}, C: []string{vc.elemArray(env.st, u.Elem(), addr)}}
 			}
 			efail("arrayof(%v)", v.T)
+		case "unboxint":
+			// unboxint(i): the Go int stored in interface value i (meaningful when istype(i, "int")); lets an extern
+			// contract of a variadic function (fmt.Sprintf) talk about the numbers it is given.
+			v := env.eval(x.Args[0], nil)
+			if _, ok := v.T.Underlying().(*types.Interface); !ok || len(v.C) != 2 {
+				efail("unboxint expects an interface value")
+			}
+			it := types.Typ[types.Int]
+			cs := vc.flat(it)
+			vc.ufun("box_"+sanitize(cs[0].sort), []string{cs[0].sort}, "Int")
+			un := vc.ufun("unbox_"+sanitize(cs[0].sort), []string{"Int"}, cs[0].sort, v.C[1])
+			return Val{T: it, C: []string{un}}
+		case "ediv", "emod":
+			// ediv(a, b), emod(a, b): floor division and non-negative remainder of mathematical integers for b > 0
+			// (SMT-LIB div/mod). Unlike the Go operators / and % (truncated, encoded with a sign case split) they
+			// are single terms, which keeps quantified calendar-style specifications small.
+			if vc.mode != ModeInt {
+				efail("%s is only available in arith int", id.Name)
+			}
+			if len(x.Args) != 2 {
+				efail("%s expects 2 arguments", id.Name)
+			}
+			a := env.eval(x.Args[0], types.Typ[types.Int])
+			b := env.eval(x.Args[1], a.T)
+			if !isInteger(a.T) || !isInteger(b.T) {
+				efail("%s: integer arguments expected", id.Name)
+			}
+			op := "div"
+			if id.Name == "emod" {
+				op = "mod"
+			}
+			return Val{T: a.T, C: []string{"(" + op + " " + a.C[0] + " " + b.C[0] + ")"}}
 		case "streq":
 			a := env.eval(x.Args[0], nil)
 			b := env.eval(x.Args[1], nil)
@@ -917,7 +984,7 @@ func (env *Env) callSpec(sf *SpecFn, args []Expr) Val {
 	pkg := vc.prog.typesPkgByName(sf.Pkg)
 	senv := &Env{vc: vc, pkg: pkg}
 	if sf.Pred {
-		benv := &Env{vc: vc, st: env.st, old: env.old, entry: env.entry, vars: map[string]Val{}, pkg: pkg}
+		benv := &Env{vc: vc, st: env.st, old: env.old, entry: env.entry, vars: map[string]Val{}, pkg: pkg, bound: env.bound}
 		for i, p := range sf.Params {
 			pt := senv.resolveType(p.Type)
 			v := env.eval(args[i], pt)
@@ -1029,6 +1096,18 @@ func (vc *VC) declareSpecFn(sf *SpecFn) string {
 	delete(vc.decls, name)
 	if len(env.st.heap) != 0 {
 		efail("spec fn %s reads the heap", sf.Name)
+	}
+	if sf.Opaque && len(binders) > 0 {
+		// same meaning as the define-fun below (a conservative definition), but applications stay first-order terms:
+		// equal arguments give equal results by congruence and the body is unfolded only for applications that occur.
+		vc.declare(name, "(declare-fun "+name+" ("+strings.Join(sorts, " ")+") "+rs+")")
+		args := ""
+		for _, p := range sf.Params {
+			args += " " + strings.Join(env.vars[p.Name].C, " ")
+		}
+		app := "(" + name + args + ")"
+		vc.axiom("(forall (" + strings.Join(binders, " ") + ") (! (= " + app + " " + body.C[0] + ") :pattern (" + app + ")))")
+		return name
 	}
 	vc.declare(name, "(define-fun "+name+" ("+strings.Join(binders, " ")+") "+rs+" "+body.C[0]+")")
 	return name
